@@ -62,8 +62,72 @@ func genSize(t *rapid.T, c *Case, label string, allowOversize bool) (series, tot
 	return
 }
 
+// genFault draws one fault action.
+func genFault(t *rapid.T, l string, sh int) Action {
+	switch pick(t, l+"-fault", 4, 3, 3, 2, 2, 2, 3, 2) {
+	case 0:
+		return Action{Kind: "dropPost", Shard: sh, Match: rapid.SampledFrom([]string{"any", "add", "transfer"}).Draw(t, l+"-match")}
+	case 1:
+		return Action{Kind: "loseReply", Shard: sh, Match: rapid.SampledFrom([]string{"any", "add", "transfer"}).Draw(t, l+"-match")}
+	case 2:
+		return Action{Kind: "restart", Shard: sh}
+	case 3:
+		return Action{Kind: "unready", Shard: sh, K: rapid.IntRange(1, 4).Draw(t, l+"-k")}
+	case 4:
+		return Action{Kind: "getFail", Shard: sh, K: rapid.IntRange(1, 4).Draw(t, l+"-k")}
+	case 5:
+		return Action{Kind: "outOfSync", Shard: sh, K: rapid.IntRange(0, 3).Draw(t, l+"-k")}
+	case 6:
+		return Action{Kind: "scaleDown"}
+	}
+	return Action{Kind: "killTail"}
+}
+
+// genDirectedMove builds a run in which a move certainly happens (relief of an overloaded shard, or
+// emptying of the tail shard) and places one or two faults at a chosen step of that move.
+func genDirectedMove(t *rapid.T) *Case {
+	c := &Case{L: 100, P: 300, InitShards: 2, InitScrapes: []int{3, 3}, NewShardDelay: rapid.IntRange(0, 1).Draw(t, "newShardDelay"),
+		RetainStore: rapid.Bool().Draw(t, "retainStore"), Min: int32(rapid.IntRange(0, 1).Draw(t, "min"))}
+	if rapid.Bool().Draw(t, "reliefMove") {
+		// shard 0 holds 115 >= 1.1 * L: one target is moved to shard 1
+		c.Idle = rapid.SampledFrom([]string{"off", "long"}).Draw(t, "idle")
+		c.Targets = []FarmSpec{{Hash: 1, Job: "j0", Series: 60, Total: 60, Healthy: true}, {Hash: 2, Job: "j0", Series: 55, Total: 55, Healthy: true}}
+		c.Init = []InitCopy{{Shard: 0, Hash: 1}, {Shard: 0, Hash: 2}}
+		if rapid.Bool().Draw(t, "third") {
+			c.Targets = append(c.Targets, FarmSpec{Hash: 3, Job: "j1", Series: 10, Total: 20, Healthy: true})
+			c.Init = append(c.Init, InitCopy{Shard: 1, Hash: 3})
+		}
+	} else {
+		// scale-down on: the tail shard's only target is moved to shard 0
+		c.Idle = "now"
+		c.Targets = []FarmSpec{{Hash: 1, Job: "j0", Series: 20, Total: 30, Healthy: true}, {Hash: 2, Job: "j1", Series: 25, Total: 25, Healthy: true}}
+		c.Init = []InitCopy{{Shard: 0, Hash: 1}, {Shard: 1, Hash: 2}}
+	}
+	c.Max = 8
+	if rapid.IntRange(0, 2).Draw(t, "faultBeforeMove") == 0 {
+		// armed on the very POSTs that start the move
+		c.Prefix = append(c.Prefix, genFault(t, "f-pre", rapid.IntRange(0, 1).Draw(t, "f-pre-shard")))
+	}
+	c.Prefix = append(c.Prefix, Action{Kind: "cycle"}) // the move begins
+	for i := rapid.IntRange(0, 3).Draw(t, "scrapesBeforeFault"); i > 0; i-- {
+		c.Prefix = append(c.Prefix, Action{Kind: "scrapeAll"})
+	}
+	nf := rapid.IntRange(1, 2).Draw(t, "nFaults")
+	for i := 0; i < nf; i++ {
+		c.Prefix = append(c.Prefix, genFault(t, fmt.Sprintf("f%d", i), rapid.IntRange(0, 1).Draw(t, fmt.Sprintf("f%d-shard", i))))
+		for k := rapid.IntRange(0, 2).Draw(t, fmt.Sprintf("f%d-rounds", i)); k > 0; k-- {
+			c.Prefix = append(c.Prefix, Action{Kind: "cycle"}, Action{Kind: "scrapeAll"})
+		}
+	}
+	c.RandSeed = int64(rapid.IntRange(1, 1<<30).Draw(t, "randSeed"))
+	return c
+}
+
 // GenCase draws a closed-loop case.  withFaults adds up to 4 fault actions.
 func GenCase(t *rapid.T, withFaults bool) *Case {
+	if withFaults && rapid.IntRange(0, 9).Draw(t, "directedMove") < 3 {
+		return genDirectedMove(t)
+	}
 	c := &Case{}
 	if rapid.IntRange(0, 9).Draw(t, "headLimitOn") < 6 {
 		c.L = 100
@@ -142,7 +206,7 @@ func GenCase(t *rapid.T, withFaults bool) *Case {
 			if withFaults && faults < 4 && rapid.IntRange(0, 2).Draw(t, l+"-faultOn") == 0 {
 				faults++
 				sh := rapid.IntRange(0, 4).Draw(t, l+"-shard")
-				switch pick(t, l+"-fault", 5, 3, 3, 2, 2, 2, 2) {
+				switch pick(t, l+"-fault", 5, 3, 3, 2, 2, 2, 2, 2) {
 				case 0:
 					c.Prefix = append(c.Prefix, Action{Kind: "dropPost", Shard: sh, Match: rapid.SampledFrom([]string{"any", "add", "transfer", "transfer"}).Draw(t, l+"-match")})
 				case 1:
@@ -155,6 +219,8 @@ func GenCase(t *rapid.T, withFaults bool) *Case {
 					c.Prefix = append(c.Prefix, Action{Kind: "getFail", Shard: sh, K: rapid.IntRange(1, 3).Draw(t, l+"-k")})
 				case 5:
 					c.Prefix = append(c.Prefix, Action{Kind: "outOfSync", Shard: sh, K: rapid.IntRange(0, 3).Draw(t, l+"-k")})
+				case 6:
+					c.Prefix = append(c.Prefix, Action{Kind: "scaleDown"})
 				default:
 					c.Prefix = append(c.Prefix, Action{Kind: "killTail"})
 				}
@@ -217,7 +283,7 @@ func GenCase(t *rapid.T, withFaults bool) *Case {
 		default:
 			faults++
 			sh := rapid.IntRange(0, 4).Draw(t, l+"-shard")
-			switch pick(t, l+"-fault", 4, 3, 3, 2, 2, 2, 2) {
+			switch pick(t, l+"-fault", 4, 3, 3, 2, 2, 2, 2, 2) {
 			case 0:
 				c.Prefix = append(c.Prefix, Action{Kind: "dropPost", Shard: sh, Match: rapid.SampledFrom([]string{"any", "add", "transfer"}).Draw(t, l+"-match")})
 			case 1:
@@ -230,6 +296,8 @@ func GenCase(t *rapid.T, withFaults bool) *Case {
 				c.Prefix = append(c.Prefix, Action{Kind: "getFail", Shard: sh, K: rapid.IntRange(1, 3).Draw(t, l+"-k")})
 			case 5:
 				c.Prefix = append(c.Prefix, Action{Kind: "outOfSync", Shard: sh, K: rapid.IntRange(0, 3).Draw(t, l+"-k")})
+			case 6:
+				c.Prefix = append(c.Prefix, Action{Kind: "scaleDown"})
 			default:
 				c.Prefix = append(c.Prefix, Action{Kind: "killTail"})
 			}
